@@ -530,7 +530,21 @@ func evalCase(st *stage, idx []int, seq []*inst, uref []complex128, isAlias bool
 		return
 	}
 	failCases.Add(1)
-	if !isAlias {
+	if isAlias {
+		// an alias spelling failing exactly where its canonical spelling fails is the same failure
+		in := seq[0]
+		for ci, c := range canonAlphabet(n) {
+			if c.Def == in.Def && c.Q == in.Q && c.Theta == in.Theta {
+				failMu.Lock()
+				_, bad := failSets[n][keyStr([]int{ci})]
+				failMu.Unlock()
+				if bad {
+					subsumed.Add(1)
+					return
+				}
+			}
+		}
+	} else {
 		failMu.Lock()
 		if failSets[n] == nil {
 			failSets[n] = map[string]struct{}{}
@@ -762,20 +776,39 @@ func parseLine(t string) (*inst, error) {
 	return mkInst(p[0], canon, q, th), nil
 }
 
+func fmtC(c complex128) string {
+	switch {
+	case cmplx.Abs(c) < 5e-7:
+		return "0"
+	case math.Abs(imag(c)) < 5e-7:
+		return strconv.FormatFloat(real(c), 'g', 4, 64)
+	case math.Abs(real(c)) < 5e-7:
+		return strconv.FormatFloat(imag(c), 'g', 4, 64) + "i"
+	}
+	return fmt.Sprintf("%.4g%+.4gi", real(c), imag(c))
+}
+
+// fmtMat prints small matrices densely and every matrix as a sparse column map |k> -> sum amp|i>
 func fmtMat(m []complex128, dim int) string {
 	var sb strings.Builder
-	for i := 0; i < dim; i++ {
-		for j := 0; j < dim; j++ {
-			c := m[i*dim+j]
-			switch {
-			case cmplx.Abs(c) < 5e-7:
-				sb.WriteString("      .      ")
-			case math.Abs(imag(c)) < 5e-7:
-				fmt.Fprintf(&sb, " %+.4f     ", real(c))
-			case math.Abs(real(c)) < 5e-7:
-				fmt.Fprintf(&sb, " %+.4fi    ", imag(c))
-			default:
-				fmt.Fprintf(&sb, " %+.2f%+.2fi ", real(c), imag(c))
+	nb := 0
+	for 1<<nb < dim {
+		nb++
+	}
+	if dim <= 8 {
+		for i := 0; i < dim; i++ {
+			sb.WriteString("    ")
+			for j := 0; j < dim; j++ {
+				fmt.Fprintf(&sb, "%-16s", fmtC(m[i*dim+j]))
+			}
+			sb.WriteString("\n")
+		}
+	}
+	for k := 0; k < dim; k++ {
+		fmt.Fprintf(&sb, "    |%0*b> ->", nb, k)
+		for i := 0; i < dim; i++ {
+			if cmplx.Abs(m[i*dim+k]) >= 5e-7 {
+				fmt.Fprintf(&sb, " (%s)|%0*b>", fmtC(m[i*dim+k]), nb, i)
 			}
 		}
 		sb.WriteString("\n")
@@ -856,7 +889,7 @@ func main() {
 	run.Assume("zero, input (state preparation, MatrixFromOp returns no matrix) and nextop (separator) are not gates and are outside the property")
 	run.Assume("conventions fixed from the code and checked on every case: first declared qubit = most significant index bit; first argument of a two-qubit gate = most significant bit of its 4x4 matrix (control of cx); circuit unitary = Mtx[k-1]*...*Mtx[0] because RunSoftwareSimulation applies Mtx[0] first; equality is exact (no global-phase slack), entrywise within 1e-4*2^n; unitarity ||M*M^dagger-I||_inf (max row sum) <= 1e-4")
 	run.Assume("angles are passed as shortest round-trip decimal text of the float64 value and parsed by the code with ParseFloat(.,32)")
-	run.Assume("a failing circuit of length L>1 is attributed to a shorter failing circuit obtained by deleting one line when such a circuit exists (counted in failures_subsumed_by_shorter); only minimal failing circuits get a signature")
+	run.Assume("a failing circuit of length L>1 is attributed to a shorter failing circuit obtained by deleting one line when such a circuit exists (counted in failures_subsumed_by_shorter); only minimal failing circuits get a signature; an alias spelling failing on the same placement as its canonical spelling is attributed to the canonical one")
 
 	lmax3 := 2
 	if run.Thorough() {
@@ -893,16 +926,6 @@ func main() {
 	run.Set("angles", angleNames)
 	run.Set("rule", "forall circuits c in the bounded universe: QasmToBmMatrices(c) emits 2^n x 2^n matrices without error; each emitted M has ||M*M^dagger-I||_inf<=1e-4; Mtx[k-1]*...*Mtx[0] == U_ref(c) entrywise within 1e-4*2^n (exact, no phase slack); RunSoftwareSimulation(|k>) == column k of U_ref(c) for every basis state k")
 
-	// alias spellings: every accepted mnemonic, every placement, length 1, n=1..5
-	aliasEvals := 0
-	for n := 1; n <= 5; n++ {
-		st := &stage{n: n, L: 1, alpha: aliasAlphabet(n), name: "aliases"}
-		before := evals.Load()
-		runStage(st, true)
-		aliasEvals += int(evals.Load() - before)
-	}
-	run.Set("alias_spelling_evaluations", aliasEvals)
-
 	perStage := map[string]int{}
 	for _, st := range stages {
 		before := evals.Load()
@@ -914,6 +937,16 @@ func main() {
 		}
 	}
 	run.Set("evaluations_per_stage", perStage)
+
+	// alias spellings: every accepted mnemonic, every placement, length 1, n=1..5
+	aliasEvals := 0
+	for n := 1; n <= 5; n++ {
+		st := &stage{n: n, L: 1, alpha: aliasAlphabet(n), name: "aliases"}
+		before := evals.Load()
+		runStage(st, true)
+		aliasEvals += int(evals.Load() - before)
+	}
+	run.Set("alias_spelling_evaluations", aliasEvals)
 
 	if !capped.Load() {
 		frontendCrosscheck()
